@@ -4,8 +4,8 @@ CONSTANTS
   Txns = {1, 2}
   NSlots = 2
   MaxVal = 2
-  DropOnAbort = FALSE
-  ReuseEntry = FALSE
+  DropOnAbort = TRUE
+  ReuseEntry = TRUE
   LookupFirst = FALSE
   AlwaysWrite = TRUE
 INVARIANTS Coherent OneCopy
